@@ -133,7 +133,7 @@ func (e *Import) String() string {
 }
 
 func (e *Import) writeTo(s *strings.Builder) {
-	if e.ImportPath != "" {
+	if e.ImportAlias != "" { // the path can be empty
 		s.WriteString("import ")
 		jsonEncodeString(s, e.ImportPath)
 		s.WriteString(" as ")
